@@ -373,6 +373,10 @@ func (r *Realm) parseLines(name string, lines []string) (err error) {
 				continue
 			}
 		}
+		if c > 0 || !strings.Contains(line, "=") || strings.Contains(line, "{") || strings.Contains(line, "}") {
+			// inside, or on the boundary of, a nested block: not a setting of this realm
+			continue
+		}
 
 		p := strings.Split(line, "=")
 		key := strings.TrimSpace(strings.ToLower(p[0]))
